@@ -49,7 +49,10 @@ def gen_case(rng):
             else:
                 vals.append(rng.choice([float('inf'), float('-inf'), float('nan')]))
         series[nm] = vals
-    return {'series': series, 'order': names, 'fmt': fmt}
+    c = {'series': series, 'order': names, 'fmt': fmt}
+    if names and rng.random() < 0.3:
+        c['second'] = rng.choice(['append', 'revise'])
+    return c
 
 
 def run_impl(c):
@@ -62,7 +65,29 @@ def run_impl(c):
     es = EquationSolver()
     es.TimeSeries = h
     via_solver = es.GenerateCSVtext(c['fmt'])
-    return {'text': h.GenerateCSVtext(c['fmt']), 'header': h.GetSeriesList(), 'via_solver': via_solver}
+    res = {'text': h.GenerateCSVtext(c['fmt']), 'header': h.GetSeriesList(), 'via_solver': via_solver}
+    # the same solver object asked again after its stored series changed (a value revised in place, a point
+    # appended to every series): the table must show the series as they are now
+    if c.get('second'):
+        c2 = second_case(c)
+        for nm in c2['order']:
+            h[nm][:] = list(c2['series'][nm])
+        res['second'] = {'case': c2, 'text': h.GenerateCSVtext(c['fmt']), 'header': h.GetSeriesList(),
+                         'via_solver': es.GenerateCSVtext(c['fmt'])}
+    return res
+
+
+def second_case(c):
+    c2 = {'series': {k: list(v) for k, v in c['series'].items()}, 'order': list(c['order']), 'fmt': c['fmt']}
+    kind = c['second']
+    for i, nm in enumerate(c2['order']):
+        v = c2['series'][nm]
+        if kind == 'append':
+            v.append((v[-1] if v else 0) + 1 + i)
+        elif v:
+            x = v[len(v) // 2]
+            v[len(v) // 2] = (x * 3 + 1) if isinstance(x, int) or math.isfinite(x) else 2.5
+    return c2
 
 
 def oracle(c, res):
@@ -155,6 +180,13 @@ def run(ctx):
         c = gen_case(ctx.rng)
         res = run_impl(c)
         out.failures.extend(oracle(c, res))
+        if 'second' in res:
+            stats['second_call'] = stats.get('second_call', 0) + 1
+            for f in oracle(res['second']['case'], res['second']):
+                f['key'] = f['key'] + ':second-call'
+                f['what'] = 'second call on the same solver after the series changed (%s): %s' % (c['second'], f['what'])
+                f['replay'] = {'kind': 'table', 'case': c}
+                out.failures.append(f)
         cells = sum(len(v) for v in c['series'].values())
         if cells <= 400:
             cases.append(emit(c, res))
@@ -196,7 +228,10 @@ def replay(path):
     r = obj.get('replay') or {}
     if r.get('kind') == 'table':
         c = r['case']
-        fails = oracle(c, run_impl(c))
+        res = run_impl(c)
+        fails = oracle(c, res)
+        if 'second' in res:
+            fails += oracle(res['second']['case'], res['second'])
     elif r.get('kind') == 'solved':
         fails = solved_rows_oracle()
     else:
